@@ -775,3 +775,44 @@ Definition check_c03 (d : doc) (pd : pdoc) (lb : list Z) : nat * list nat :=
     end
   | _ => (0, [])
   end.
+
+(* ---- C16 ---- *)
+Definition picts_of (p : list item) : list pict :=
+  flat_map (fun i => match i with IPict x => [x] | _ => [] end) p.
+
+(* truth per figure, supplied by the generator: (has_dims, w, h) *)
+Definition c16_one (fmt : str) (data : str) (wq hq : Q) (truth : bool * (Z * Z)) (align : str) (pc : pict) : nat :=
+  let '(has, (tw, th)) := truth in
+  if negb (match unhex (pc_hex pc) with Some bs => list_eqb N.eqb bs data | None => false end) then 1
+  else if negb (tok_list_eqb (pc_blip pc) (blip_tokens fmt)) then 2
+  else if negb (if has then Z.eqb (pc_w pc) tw && Z.eqb (pc_h pc) th
+                else Z.eqb (pc_w pc) (qtrunc (wq * (96 # 1))) && Z.eqb (pc_h pc) (qtrunc (hq * (96 # 1)))) then 3
+  else if negb (Z.eqb (pc_wgoal pc) (qtrunc (wq * (1440 # 1))) && Z.eqb (pc_hgoal pc) (qtrunc (hq * (1440 # 1)))) then 4
+  else if negb (tok_list_eqb (pc_align pc) (align_tokens align)) then 5
+  else 0.
+
+Definition positional (l : list Q) (i : nat) : Q :=
+  match nth_error l i with Some x => x | None => match last_opt l with Some x => x | None => 0 # 1 end end.
+
+(* clause ids: 1 payload; 2 picture type; 3 pixel dimensions; 4 display size; 5 alignment;
+   6 not exactly one picture per page, in order; 10+ : placement clauses of C06 *)
+Definition check_c16 (d : doc) (pd : pdoc) (truth : list (bool * (Z * Z))) : nat :=
+  match d_content d with
+  | CFigure fg =>
+    let pages := observed_pages pd in
+    let per_page := map picts_of pages in
+    if negb (Nat.eqb (length pages) (length (fg_data fg)))
+       || negb (all_b (fun l => Nat.eqb (length l) 1) per_page) then 6
+    else
+      let codes := map (fun x => let '(i, (fd, (tr, pcs))) := x in
+                                 match pcs with
+                                 | [pc] => c16_one (fst fd) (snd fd) (positional (fg_width fg) i) (positional (fg_height fg) i)
+                                                   tr (fg_align fg) pc
+                                 | _ => 6 end)
+                       (combine (seq 0 (length pages)) (combine (fg_data fg) (combine truth per_page))) in
+      match filter (fun c => negb (Nat.eqb c 0)) codes with
+      | c :: _ => c
+      | [] => let c6 := check_c06 d pd in if Nat.eqb c6 0 then 0 else 10 + c6
+      end
+  | _ => 0
+  end.
